@@ -393,3 +393,80 @@ def register(GROUPS, c2g, incs, REPO, HERE, STRUCTS, Group):
         return g, [f]
 
     GROUPS["ArrayPermC08"] = gen_array_perm
+
+    # ------------------------------------------------------------------ group ArrayDebugC08
+    def gen_array_debug(tmp):
+        """The SC_ENABLE_DEBUG configuration of sc_array_truncate, sc_array_rewind, sc_array_reset and sc_array_resize, each translated
+        as a WHOLE (slicelib; SC_ASSERT = the executions that do not abort; memset / sc_realloc / sc_free / sc_array_reset calls as ghost
+        outputs <callee>_called, <callee>_arg<i> in source order; `return` = end of the function): what the Debug build fills with -1,
+        where and under which condition.  The census of memset calls over ALL sc_array_* functions of the Debug configuration is pinned:
+        a fill added anywhere else makes the group FAIL."""
+        import slicelib as sl
+        import vlib
+        g = Group("ArrayDebugC08")
+        g.text += "From ScV Require Import Gen.Macros.   (* sc_log2_lookup_table, generated from sc.c *)\n\n"
+        dinc = os.path.join(tmp, "inc_debug")
+        os.makedirs(dinc, exist_ok=True)
+        vlib.make_config_h(os.path.join(dinc, "sc_config.h"), "off", True, True)
+        f = os.path.join(REPO, "src", "sc_containers.c")
+        h = os.path.join(REPO, "src", "sc_containers.h")
+        objs = c2g.clang_ast(f, "sc_array_", [dinc] + incs(tmp)[1:])
+
+        def calls(n):
+            return [sl.callee_name(x) for x in sl.find_nodes(n, lambda x: x.get("kind") == "CallExpr")]
+
+        census = {}
+        for o in objs:
+            if o.get("kind") == "FunctionDecl" and o.get("name", "").startswith("sc_array_") and any(c.get("kind") == "CompoundStmt" for c in o.get("inner", [])):
+                k = calls(o).count("memset")
+                if k:
+                    census[o["name"]] = k
+        want = {"sc_array_memset": 1, "sc_array_truncate": 1, "sc_array_resize": 3}      # resize: shrink fill, grow fill (F-C08g repair), realloc fill
+        if census != want:
+            raise c2g.Unsupported("Debug configuration: memset calls per sc_array function %s, expected %s" % (sorted(census.items()), sorted(want.items())))
+
+        def r2b(n):
+            if not isinstance(n, dict):
+                return n
+            if n.get("kind") == "ReturnStmt":
+                if [c for c in n.get("inner", []) if isinstance(c, dict)]:
+                    raise c2g.Unsupported("return with a value in a void function")
+                return {"kind": "BreakStmt"}
+            m = dict(n)
+            if "inner" in m:
+                m["inner"] = [r2b(c) for c in m["inner"]]
+            return m
+
+        def whole(cname, gname, outs, want_params, want_outs, comment, **kw):
+            F = c2g.find_function(objs, cname)
+            body = [r2b(x) for x in [c for c in F["inner"] if c.get("kind") == "CompoundStmt"][0].get("inner", [])]
+            t, i = sl.emit_block(body, gname, outs, cname, effect_called=True, jumps_end=True, want_params=want_params,
+                                 tables={"sc_log2_lookup_table"}, comment=comment, **kw)
+            if i["outputs"] != want_outs:
+                raise c2g.Unsupported("%s (Debug configuration): outputs %s, expected %s" % (cname, i["outputs"], want_outs))
+            g.add(t, i)
+
+        EFF = ("memset", "memcpy", "sc_realloc", "sc_malloc", "sc_free", "sc_array_reset")
+        SKIP = {"sc_realloc": (0,), "sc_malloc": (0,), "sc_free": (0,)}
+        whole("sc_array_truncate", "c8d_truncate", ["array_elem_count", "*ghosts"], ["array_array", "array_byte_alloc"],
+              ["array_elem_count", "memset_called", "memset_arg0", "memset_arg1", "memset_arg2"],
+              "(elem_count, memset called, destination, value, byte count)", effects=EFF, effect_skip_args=SKIP)
+        whole("sc_array_rewind", "c8d_rewind", ["array_elem_count", "*ghosts"], ["new_count", "array_byte_alloc", "array", "array_elem_count"],
+              ["array_elem_count", "sc_array_reset_called", "sc_array_reset_arg0"],
+              "(elem_count, sc_array_reset called, its argument): NO memset", effects=EFF, effect_skip_args=SKIP)
+        whole("sc_array_reset", "c8d_reset", ["array_array", "array_elem_count", "array_byte_alloc", "*ghosts"], ["array_byte_alloc", "array_array"],
+              ["array_array", "array_elem_count", "array_byte_alloc", "sc_free_called", "sc_free_arg1"],
+              "(array, elem_count, byte_alloc, sc_free called, freed pointer): NO memset", effects=EFF, effect_skip_args=SKIP)
+        whole("sc_array_resize", "c8d_resize", ["array_elem_count", "array_byte_alloc", "*ghosts"],
+              ["array_byte_alloc", "new_count", "array", "array_elem_count", "array_elem_size", "array_array", "sc_realloc_ret"],
+              ["array_elem_count", "array_byte_alloc", "sc_array_reset_called", "sc_array_reset_arg0", "memset_called", "memset_arg0", "memset_arg1",
+               "memset_arg2", "memset2_called", "memset2_arg0", "memset2_arg1", "memset2_arg2", "sc_realloc_called", "sc_realloc_arg1", "sc_realloc_arg2",
+               "memset3_called", "memset3_arg0", "memset3_arg1", "memset3_arg2"],
+              "(elem_count, byte_alloc, reset called, arg, memset [allocation kept, shrink: the dropped elements] called, dest, value, bytes, memset2 "
+              "[allocation kept, growth: the elements that become visible] called, dest, value, bytes, sc_realloc called, pointer, size, memset3 [after "
+              "the reallocation] called, dest, value, bytes)", effects=EFF, effect_skip_args=SKIP)
+        if [i_ for i_ in g.infos if i_.get("fuel")]:
+            raise c2g.Unsupported("Debug configuration: a loop in one of the four functions (the spare-byte assertion loop of F-C08g is back?)")
+        return g, [f, h]
+
+    GROUPS["ArrayDebugC08"] = gen_array_debug
